@@ -30,6 +30,7 @@
    variants are outside the Coq model (monitors only).  Weak memory: only the obligations above, no WM machine. *)
 From Coq Require Import ZArith List Bool.
 Require Import Verif.Gen.Gen_bounded_queue Verif.Conc.Machine Verif.BQ.BQModel Verif.BQ.BQProofs.
+Require Import Verif.BQ.BQInvDefs Verif.BQ.BQInvStep Verif.BQ.BQInvMain Verif.BQ.BQInvThm.
 Import ListNotations.
 Local Open Scope Z_scope.
 
@@ -99,6 +100,21 @@ Theorem c01_memory_order_obligations : orders_ok = true.
 Proof. exact bq_orders_ok. Qed.
 Print Assumptions c01_memory_order_obligations.
 
+(* ---- schedule-quantified theorems about BQModel: every usage_ok client program, every capacity 2^k, every number of threads,
+   every schedule (ticket-interval invariant, BQ/BQInv*.v) ---- *)
+(* exclusive, fully published access: no callback ever enters a slot that is owned by another callback or whose payload cell is
+   in the wrong state (producer: still holding an unconsumed value; consumer: empty) *)
+Theorem c01_exclusive : forall k progs s, usage_ok k progs = true -> Reach k progs s -> err s = false.
+Proof. exact bq_exclusive. Qed.
+Print Assumptions c01_exclusive.
+
+(* exactly once: every delivered (pop ticket, value) is the (push ticket, value) written by the producer with the same ticket;
+   no ticket is delivered twice; no ticket is written twice *)
+Theorem c01_exactly_once : forall k progs s, usage_ok k progs = true -> Reach k progs s ->
+  (forall i v, In (i, v) (delivered s) -> In (i, v) (pushed s)) /\ NoDup (map fst (delivered s)) /\ NoDup (map fst (pushed s)).
+Proof. exact bq_exactly_once. Qed.
+Print Assumptions c01_exactly_once.
+
 (* ---- full-strength statements that are NOT proved (see header): kept visible, checked by exploration + monitors ---- *)
 (* exactly once / conservation: every delivered (pop ticket, value) is the (push ticket, value) written by the producer with the
    same ticket; no ticket is delivered or written twice; at quiescence what was pushed is delivered or still in its slot *)
@@ -106,9 +122,6 @@ Definition c01_exactly_once_statement : Prop := forall k progs s, usage_ok k pro
   (forall i v, In (i, v) (delivered s) -> In (i, v) (pushed s)) /\ NoDup (map fst (delivered s)) /\ NoDup (map fst (pushed s)) /\
   (all_done s = true -> forall i v, In (i, v) (pushed s) -> In (i, v) (delivered s) \/
      pay (get_slot s (Z.to_nat (i mod 2 ^ Z.of_nat k))) = Some v).
-(* exclusive, fully published access: no callback ever enters a slot that is owned by another callback or whose payload cell is
-   in the wrong state (producer: still holding an unconsumed value; consumer: empty) *)
-Definition c01_exclusive_statement : Prop := forall k progs s, usage_ok k progs = true -> Reach k progs s -> err s = false.
 (* real-time order of tickets: every ticket obtained after a moment is larger than every ticket obtained before it; with
    exactly-once this is the FIFO sentence of the property *)
 Definition tickets_of (role : bool) (s : st) : list (Z * nat) :=
